@@ -345,7 +345,14 @@ def prop_check(h, obs, computed, local_before):
 
 # ----------------------------------------------------------------------------------------
 def run(ctx):
-    vplib.gen_consts(ctx)
+    consts_problem = None
+    try:
+        vplib.gen_consts(ctx)
+    except vplib.Violation as v:
+        # a constant the model needs is gone: still run the implementation against the last model so
+        # that a concrete failing input is reported if there is one
+        consts_problem = v
+        ctx.log("constants translator failed, continuing with the previous Consts.v: %s" % v)
     proofs_ok, detail = vplib.check_proofs(ctx)
     ctx.log("proofs:", proofs_ok, detail[:200])
     bins = vplib.cargo_build(ctx, "harness", ["c09"])
@@ -526,5 +533,7 @@ def run(ctx):
         "a_local / a_store / a_readback are the file system's observed answers (the modelled file system is C08's)",
         "one key-keeper task per SharedState; actor channel failures (send/recv errors) are not modelled",
     ]
+    if consts_problem is not None:
+        proofs_ok, detail = False, "constants translator: %s" % consts_problem
     verdict(ctx, proofs_ok, detail, disagreements, failures,
             corr_name="KeyKeeper.poll/notify vs KeyKeeper::loop_poll (getters, policy trace, host requests, key/log directories)")
